@@ -83,11 +83,21 @@ def cred(ctx, rep, rule):
         chk("flag_auth", f["flag_auth"], _is_call(f["flag_auth"], "::has_auth", ("arg1", "auth_key")), "self.auth_key.has_auth()")
         chk("flag_priv", f["flag_priv"], _is_call(f["flag_priv"], "::has_priv", ("arg1", "priv_key")), "self.priv_key.has_priv()")
         fr = f["flag_report"]
-        parts = set(fr[1]) if fr[0] == "phi" else {fr}
-        want = {("const", False)}
-        okr = ("const", False) in parts and len(parts) == 2 and any(
-            _is_call(p, "::is_empty") and p[2] and p[2][0][0] == "f" and p[2][0][2] == "vars" and
-            flow.mentions(p[2][0], lambda s: s == ("dc", ("arg", 2), "GetRequest")) for p in parts)
+        # decided per cell: (variant of the PDU, vars.is_empty()) -> value of the flag; shape-independent (match / matches! / if let)
+        pv = {name: dno for dno, name in (flow.enum_variants(facts, "snmp::pdu::SnmpPdu") or {}).items()}
+        fr_op = st["rv"]["ops"][st["rv"]["fields"].index("flag_report")]
+
+        def flag_under(variant, empty):
+            def ev(t):
+                if t == ("discr", ("arg", 2)):
+                    return pv.get(variant)
+                if _is_call(t, "::is_empty") and t[2] and flow.mentions(t[2][0], lambda s_: s_[0] == "f" and s_[2] == "vars"):
+                    return 1 if empty else 0
+                return None
+            blocks, _ = cells.feasible(body, prov, ev)
+            return cells.eval_term(flow.Prov(body, only_blocks=blocks).operand(fr_op), ev)
+        got = {(v, e): flag_under(v, e) for v in pv for e in (True, False)}
+        okr = bool(pv) and all(val == (1 if (v == "GetRequest" and e) else 0) for (v, e), val in got.items())
         chk("flag_report", fr, okr, "pdu is a GetRequest with no varbinds (discovery probe), false otherwise")
         chk("usm", f["usm"], f["usm"][0] == "agg" and f["usm"][1].endswith("UsmParameters"), "the UsmParameters built above")
     for st, f in sc:
